@@ -105,6 +105,13 @@ func OracleAll(sc pairsim.Scenario, tr pairsim.Trace) (out []*evid.Failure) {
 		}
 		if op.Kind == "observe" {
 			for k, n := range r.Notifs {
+				// the server application puts an Observe option on every notification it sends; a
+				// notification that was reassembled from blocks must still carry it ("with the message's
+				// other options preserved") - the follow-up blocks themselves have none
+				if n.Code >= 64 && n.Code < 96 && n.Code != 95 && n.Seq < 0 && op.NotifLen > 0 {
+					report(evid.Failf("bw/notification-options-lost", sc, "operation %d: notification %d (%d bytes) reached the callback without the Observe option the server sent it with", i, k, n.BodyLen))
+					break
+				}
 				if n.Code >= 64 && n.Code < 96 && n.Code != 95 && !n.BodyOK {
 					report(evid.Failf("bw/partial-notification", sc, "operation %d: notification %d (seq %d) delivered with a body of %d bytes that is not what the server sent", i, k, n.Seq, n.BodyLen))
 					break
